@@ -287,7 +287,7 @@ func runC05typed(cfg Config, r *Result) {
 	for _, m := range scMut {
 		run(m.Src, "rule:"+m.Rule)
 	}
-	budget := r.Evaluations + cfg.N(2500, 40000) // relative: this runs after C05's other parts in the same Result
+	budget := r.Evaluations + cfg.N(2500, 12000) // relative: this runs after C05's other parts in the same Result
 	var small []string
 	for _, p := range progs {
 		if len(p) <= 2500 {
